@@ -34,6 +34,9 @@ def gen(rng, tier):
         c["rchunk"] = rng.choice([None, 1, 2, max(p, 1), p + 2])
         c["reader"] = rng.choice(["Genotypes", "GenotypesVCF"]) if not fmt.startswith(".pgen") else "GenotypesPLINK"
         c["drop_phase_plane"] = rng.random() < 0.1  # a matrix without third plane: all calls phased
+        if len(c["samples"]) > 1 and rng.random() < 0.15:
+            # sample IDs that are legal but look like comment / header lines in a .psam file
+            c["samples"][rng.randrange(1, len(c["samples"]))] = rng.choice(["#2", "#IID2", "#s"])
         yield c
 
 
@@ -45,7 +48,8 @@ def inspect_file(path, fmt):
         pvar = [l.rstrip("\n").split("\t") for l in open(str(path)[:-5] + ".pvar") if not l.startswith("##")]
         ci = {h.lstrip("#"): i for i, h in enumerate(pvar[0])}
         vs = [{"id": r[ci["ID"]], "chrom": r[ci["CHROM"]], "pos": int(r[ci["POS"]]), "alleles": [r[ci["REF"]]] + [a for a in r[ci["ALT"]].split(",")]} for r in pvar[1:]]
-        samples = [l.rstrip("\n").split("\t")[0] for l in open(str(path)[:-5] + ".psam") if not l.startswith("#")]
+        psam = open(str(path)[:-5] + ".psam").read().splitlines()
+        samples = [l.split("\t")[0] for l in (psam[1:] if psam and psam[0].startswith(("#IID", "#FID")) else psam) if l]  # only the first line is a header: a sample may be called '#2'
         data = [[None] * len(vs) for _ in samples]
         if vs:
             rd = pgenlib.PgenReader(bytes(str(path), "utf8"), pvar=pgenlib.PvarReader(bytes(str(path)[:-5] + ".pvar", "utf8")))
